@@ -40,7 +40,8 @@ def case_strategy(max_ops=25):
         "path": st.sampled_from(build.BUILD_PATHS),
         "pre": st.lists(ops.op_strategy(names + ["enter", "enter"], weights), max_size=8),
         "how": st.sampled_from(["copy", "copy", "deepcopy", "pickle"]),
-        "edits": st.lists(st.tuples(st.sampled_from(["orig", "copy", "copy"]), ops.op_strategy(names, weights)), min_size=1, max_size=max_ops),
+        "edits": st.one_of(st.lists(st.tuples(st.sampled_from(["orig", "copy", "copy"]), ops.op_strategy(names, weights)), min_size=1, max_size=max_ops),
+                           st.lists(st.tuples(st.sampled_from(["orig", "copy", "copy"]), ops.op_strategy(names, weights)), min_size=8, max_size=max_ops)),
         "obj_ops": st.lists(st.tuples(st.sampled_from(["rcopy", "mcopy", "add", "sub", "mul", "radd"]), st.integers(0, 20), st.integers(0, 20),
                                       st.sampled_from([2, -1, 0.5])), max_size=3),
     })
